@@ -92,9 +92,23 @@ func genStr() *rapid.Generator[pbt.S] {
 }
 
 func genTags(max int) *rapid.Generator[[]Tag] {
-	return rapid.SliceOfN(rapid.Custom(func(t *rapid.T) Tag {
-		return Tag{genStr().Draw(t, "tn"), genStr().Draw(t, "tv")}
-	}), 0, max)
+	return rapid.Custom(func(t *rapid.T) []Tag {
+		if rapid.IntRange(0, 7).Draw(t, "tinyTags") == 0 {
+			// the smallest encodings there are: several tags whose name and value are (almost all) empty -
+			// more list elements than bytes of string data behind the list header
+			n := rapid.IntRange(2, max).Draw(t, "ntiny")
+			ts := make([]Tag, n)
+			for i := range ts {
+				if rapid.IntRange(0, 4).Draw(t, "nonEmpty") == 0 {
+					ts[i] = Tag{pbt.S(rapid.SampledFrom([]string{"a", "", "b"}).Draw(t, "tn")), pbt.S(rapid.SampledFrom([]string{"", "v"}).Draw(t, "tv"))}
+				}
+			}
+			return ts
+		}
+		return rapid.SliceOfN(rapid.Custom(func(t *rapid.T) Tag {
+			return Tag{genStr().Draw(t, "tn"), genStr().Draw(t, "tv")}
+		}), 0, max).Draw(t, "tags")
+	})
 }
 
 func genMetric() *rapid.Generator[Metric] {
